@@ -243,6 +243,34 @@ func runC02(c *hc.Ctx) error {
 		if c.Rng.Intn(3) == 0 {
 			id = c.Rng.Intn(g.DeepestID + 1)
 		}
+		if i%8 == 6 { // a triangle with an edge between two diagonal neighbour pixels exactly through their common corner,
+			// its third vertex in the pixel that owns that corner (or in the fourth pixel around it): a tie inside
+			// SnapPolygon's own call of the index (the segment stream above reaches the descent below it only)
+			gg := pickGrid(c, grids)
+			lv := gg.Level(gg.DeepestID)
+			sp := gg.Span(lv)
+			n := (int64(1) << lv) - 3
+			if sp >= 8 && n > 2 {
+				kx := gg.Ext[0] + (1+c.Rng.Int63n(n))*sp
+				ky := gg.Ext[1] + (1+c.Rng.Int63n(n))*sp
+				dx, dy := 1+c.Rng.Int63n(sp-1), 1+c.Rng.Int63n(sp-1)
+				sx := int64(1 - 2*c.Rng.Intn(2)) // which diagonal
+				pa, pb := Pt{kx - sx*dx, ky + dy}, Pt{kx + sx*dx, ky - dy}
+				var pc Pt
+				if c.Rng.Intn(4) != 0 {
+					pc = Pt{kx + c.Rng.Int63n(sp), ky + c.Rng.Int63n(sp)} // the pixel that owns the corner
+				} else {
+					pc = Pt{kx - 1 - c.Rng.Int63n(sp-1), ky - 1 - c.Rng.Int63n(sp-1)}
+				}
+				tri := []Pt{pa, pb, pc}
+				if c.Rng.Intn(2) == 0 {
+					tri = []Pt{pb, pa, pc}
+				}
+				if areaSign(tri) != 0 && gg.inGrid([][]Pt{tri}) {
+					g, poly, kind, id = gg, [][]Pt{tri}, "triangle with an edge through the common corner of two diagonal neighbour pixels", gg.DeepestID
+				}
+			}
+		}
 		ids := []int{id}
 		if id != g.DeepestID {
 			ids = append(ids, g.DeepestID)
